@@ -96,7 +96,10 @@ def batch(prop, tier, sd):
                 out.append(d)
                 n += 1
         for i in range(40 if quick else 300):
-            out.append(ds.sources_decl(rng, 's%04d' % i, p_fallible=rng.choice([0.0, 0.5, 0.8])))
+            out.append(ds.sources_decl(rng, 's%04d' % i, p_fallible=rng.choice([0.0, 0.5, 0.8]), nsync=(0 if i % 4 == 1 else None)))
+        # many input-free Async providers at once (the scheduler's queues and pool counts beyond small sizes)
+        for i in range(4 if quick else 24):
+            out.append(ds.wide_decl(rng, 'w%04d' % i, width=rng.randint(8, 12), sync_root=(i % 2 == 0), p_root=rng.choice([0.0, 0.15, 0.3])))
         # exhaustive: n<=3 (quick) / n<=4 (thorough) shapes in which >=2 sources are async and needed
         for nn in [3, 4]:
             for k, edges in enumerate(ds.all_dags(nn)):
@@ -114,8 +117,8 @@ def batch(prop, tier, sd):
                         d['layout'] = rng.sample(d['layout'], len(d['layout']))
                         out.append(d)
     else:  # C06, C07, C08: fault modes
-        for i in range(12 if quick else 100):
-            out.append(ds.sources_decl(rng, 's%04d' % i, p_fallible=0.6))
+        for i in range(18 if quick else 120):
+            out.append(ds.sources_decl(rng, 's%04d' % i, p_fallible=0.6, nsync=(0 if i % 2 == 1 else None)))
         for i in range(2 if quick else 12):
             out.append(ds.wide_decl(rng, 'w%04d' % i, width=rng.randint(9, 12), p_fallible=0.3, sync_root=(i % 2 == 0)))
         ex = ds.exhaustive_small(3, with_fallible=False)
@@ -125,11 +128,21 @@ def batch(prop, tier, sd):
             for p in d['providers']:
                 p['fallible'] = rng.random() < (0.6 if prop != 'C07' else 0.35)
         out += pick
+        # every DAG on 4 providers (a seeded half in quick), sources mostly Async: which pool runs on the caller's goroutine
+        # and which providers can fail there is decided by shapes this small
+        dags4 = list(ds.all_dags(4))
+        for k, edges in enumerate(dags4 if not quick else rng.sample(dags4, 32)):
+            for rep_ in range(1 if quick else 2):
+                srcs = {i for i in range(4) if not any(e[1] == i for e in edges)}
+                a = {i for i in range(4) if rng.random() < (0.85 if i in srcs else 0.5)}
+                fl = {i for i in range(4) if rng.random() < (0.5 if prop != 'C07' else 0.3)}
+                if a:
+                    out.append(ds.mk_decl('q%03d_%d' % (k, rep_), 4, edges, 3, a, fl))
         nrand = 40 if quick else 300
         for i in range(nrand):
             d = ds.random_decl(rng, 'f%04d' % i, nmin=3, nmax=6 if quick else 7,
                                p_fallible=0.5 if prop != 'C07' else 0.3, p_async=0.6,
-                               zero_in_async=rng.choice([0, 1, 2, 2]))
+                               zero_in_async=rng.choice([0, 1, 2, 2]), constructs=(i % 2 == 0))
             if i % 4 == 1:
                 d['pkg_ctx'] = True     # the user's package declares `ctx` at package level: the injector's parameter is ctx0
             if i % 3 == 0:
@@ -224,6 +237,7 @@ def real_signatures(w, cli, decls, prop, clauses, modes, sd, maxruns, tag):
                     if e['ev'] in ('Final', 'Hang'):
                         parked = [p['line'] for p in e['parked']]
                 sg = signature(v['clause'], progs[i], rline, parked)
+                failing = next((e['cls'][5:] for e in evs.get(v['tr'], []) if e['ev'] == 'Return' and str(e.get('cls', '')).startswith('prov:')), None)
                 if sg not in out:
                     src = ''
                     try:
@@ -231,7 +245,11 @@ def real_signatures(w, cli, decls, prop, clauses, modes, sd, maxruns, tag):
                     except OSError:
                         pass
                     path = next((e['path'] for e in evs[v['tr']] if e['ev'] == 'End'), None)
-                    out[sg] = {'decl': byid[i], 'generated': src, 'path': path, 'events': evs[v['tr']][:200]}
+                    out[sg] = {'decl': byid[i], 'generated': src, 'path': path, 'events': evs[v['tr']][:200], 'occurrences': []}
+                if [i, failing] not in out[sg]['occurrences']:
+                    out[sg]['occurrences'].append([i, failing])
+                    if len(out[sg]['occurrences']) <= 40:
+                        out[sg].setdefault('by_decl', {})['%s|%s' % (i, failing)] = {'decl': byid[i], 'path': next((e['path'] for e in evs[v['tr']] if e['ev'] == 'End'), None)}
     return out, ok
 
 
@@ -477,6 +495,34 @@ def run(prop, tier, sd, rep, clauses, modes):
                         path = e['path']
                 return {'decl': d, 'generated': src, 'path': path, 'events': evs[:200]}
 
+            # ---- scope of the known findings ---------------------------------------------------------------------------
+            # A known finding is a defect of the reference design (Planner.tla + Injector.tla) on particular inputs.  A
+            # declaration on which the real code shows a known finding's signature although the program PLANNED for that
+            # very declaration cannot show it (TLC, all schedules) is a new violation: the change made the defective path
+            # reachable for inputs it did not concern.
+            opn0, _ = load_known()
+            import design
+            for sig in [s_ for s_ in list(real_sigs) if s_ in opn0]:
+                occ = real_sigs[sig]
+                dids = sorted({o[0] for o in occ})[:40]
+                planned = design.planned_signatures(w, [byid[i] for i in dids], clauses, modes, signature,
+                                                    name='scope%d-%d' % (sk, abs(hash(sig)) % 100000))
+                def failing_of(o):
+                    for e in events_by_tr.get(o[1], []):
+                        if e['ev'] == 'Return' and str(e.get('cls', '')).startswith('prov:'):
+                            return e['cls'][5:]
+                    return None
+                beyond = [o for o in occ if o[0] in planned and (sig, failing_of(o)) not in planned[o[0]]]
+                agg['kf_scope_checked'] = agg.get('kf_scope_checked', 0) + len(planned)
+                if beyond:
+                    bset = {o[0] for o in beyond}
+                    real_sigs[sig + '|on-inputs-the-known-finding-does-not-cover'] = beyond
+                    rest = [o for o in occ if o[0] not in bset]
+                    if rest:
+                        real_sigs[sig] = rest
+                    else:
+                        del real_sigs[sig]
+
             for sig, occ in sorted(real_sigs.items()):
                 did, tr, v = occ[0]
                 what = '%s on declaration %s (%d occurrence(s) in %d declaration(s)); detail=%s' % (
@@ -607,6 +653,38 @@ def run(prop, tier, sd, rep, clauses, modes):
                             % (sig, [c['id'] for c in cand], sorted(got)))
         if ddropped:
             rep.notes.append('Planner.tla leaves a pool unscheduled for %s' % ddropped[:5])
+        # ---- is the design-level exploration about THIS generator?  Every explored declaration is generated for real and the
+        # generated program compared with the planned one.  Where they differ, the exploration above says nothing: those
+        # declarations (with each provider fallible in turn) are built and executed, and judged like the batch.
+        gnchk, gdiff, gprogs, grefused = design.generator_conformance(w, cli, list(dbyid.values()), name='gconf')
+        if grefused:
+            rep.notes.append('the generator refuses %d declarations of the design-level exploration: %s' % (len(grefused), grefused[:5]))
+        gnew = []
+        if gdiff:
+            rep.notes.append('the generator plans %d of the %d declarations of the design-level exploration differently from Planner.tla: '
+                             'they are executed for real (%s ...)' % (len(gdiff), gnchk, gdiff[:6]))
+            rngd = random.Random(sd)
+            pickd = sorted(gdiff) if len(gdiff) <= 16 else sorted(rngd.sample(sorted(gdiff), 16))
+            cand = []
+            for i in pickd:
+                cand += design.fallible_variants(dbyid[i]) if modes != 'none' else [dbyid[i]]
+            got, ran = real_signatures(w, cli, cand, prop, clauses, modes, sd, maxruns, 'gdiff')
+            planned = design.planned_signatures(w, [c for c in cand if c['id'] in ran], clauses, modes, signature, name='gdiffscope') if got else {}
+            for sig, info in sorted(got.items()):
+                for did, failing in info['occurrences']:
+                    if sig in opn and did in planned and (sig, failing) in planned[did]:
+                        continue     # the known finding, on an input it covers
+                    if sig in opn and did not in planned:
+                        continue     # cannot tell (outside the planner's domain)
+                    s2 = sig + ('|on-inputs-the-known-finding-does-not-cover' if sig in opn else '')
+                    if s2 in gnew:
+                        continue
+                    gnew.append(s2)
+                    bd = info.get('by_decl', {}).get('%s|%s' % (did, failing), {})
+                    rep.found(s2, '%s on declaration %s (failing provider %s), one of the small declarations the generator schedules '
+                                  'differently from the reference design (Planner.tla)' % (s2, did, failing),
+                              {'decl': bd.get('decl', info['decl']), 'path': bd.get('path', info['path']), 'generated': info['generated'] if did == info['decl']['id'] else '',
+                               'events': info['events'] if did == info['decl']['id'] else []})
 
         # ---- evidence ------------------------------------------------------------------------------------------
         rep.cov.update({
@@ -614,7 +692,8 @@ def run(prop, tier, sd, rep, clauses, modes):
             'transitions': agg['mtrans'] + agg['req_states'] + dtrans + agg['wt_states'],
             'design_level': {'declarations_planned_by_Planner_tla': len(dbyid), 'max_providers': dnmax, 'states': dstates, 'transitions': dtrans,
                              'signatures': {k: len(v) for k, v in dsigs.items()},
-                             'planner_conformance_checked': nchk, 'planner_conformance_differences': len(pdiff)},
+                             'planner_conformance_checked': nchk, 'planner_conformance_differences': len(pdiff),
+                             'design_declarations_generated_for_real_and_compared_with_plan': gnchk, 'design_declarations_planned_differently': len(gdiff)},
             'traces_validated_against_impl': agg['ntraces'],
             'samples': [agg['sample']],
             'declarations': len(decls), 'declarations_executed': len(ok),
@@ -622,7 +701,7 @@ def run(prop, tier, sd, rep, clauses, modes):
             'declarations_with_goroutines': agg['nontrivial'],
             'generator_refused': sorted(agg['gen_fail'])[:20], 'not_compiling_skipped': sorted(agg['comp_fail'])[:20],
             'driver_not_generated': sorted(agg['dg_fail'])[:20],
-            'programs_model_checked': agg['nmodelled'], 'programs_unmodelled': agg['unmodelled'], 'programs_too_wide_for_exhaustive_interleaving': agg.get('too_wide_for_tlc', 0),
+            'programs_model_checked': agg['nmodelled'], 'programs_unmodelled': agg['unmodelled'], 'programs_too_wide_for_exhaustive_interleaving': agg.get('too_wide_for_tlc', 0), 'declarations_checked_against_known_finding_scope': agg.get('kf_scope_checked', 0),
             'real_executions_explained_by_extracted_program': agg['wt_ok'], 'whitebox_trace_states': agg['wt_states'],
             'model_states_distinct': agg['mstates'], 'model_transitions': agg['mtrans'],
             'trace_events_validated': agg['nlines'], 'real_executions': agg['nexec'],
